@@ -124,6 +124,9 @@ def match_known(cid, viol, case, known):
         m = k.get('match', {})
         if m.get('oracle') and m['oracle'] != viol['oracle']:
             continue
+        if m.get('oracle_re') and not re.search(m['oracle_re'],
+                                                viol['oracle']):
+            continue
         if m.get('detail_re') and not re.search(m['detail_re'],
                                                 viol['detail']):
             continue
